@@ -12,6 +12,12 @@ ENGINES = [
      'kind_free_text': 'preemption-bounded controlled scheduler over compiler-inserted load/store hooks with conflict (race) monitor'},
 ]
 TEXT = {
+    'C08': {
+        'level': 'Every Value state reached by the C12 breadth-first search over operation histories (depth 3 quick / 4 thorough: removed members, array holes, pointer members, empty containers, containers ending in an omitted member) is stringified with 17 digits, parsed back and compared as a document (Undefined omitted, pointers dereferenced, numbers equal in value, doubles bit-identical); stringify-parse-stringify must be a fixed point; well-formed text must be accepted by a strict RFC 8259 reference parser. Plus a product set: 9 container shapes over every 7-bit unit as a one-unit string, all 2/3-unit strings over {\" \\ NUL 0x01 a}, multi-byte code points, 23 doubles (incl. -0, min subnormal, max, 1e21), 64-bit boundary integers and keywords, in four character widths.',
+        'design_ref': 'DESIGN.md §5 C08',
+        'note': 'Finite numbers only; depends on the number formatter/parser only through the 17-digit round trip (C11).',
+        'technique': 'explicit-state BFS over reachable Value states plus bounded-exhaustive product set, round-trip oracle on the implementation',
+    },
     'C18': {
         'level': 'Bounded-exhaustive: every array of <=3 (quick) / <=4 (thorough, 24 M arrays) objects drawn from 7 grouping values of different kinds with colliding texts (1, \"1\", 2, 2.5, true, null, \"x\") x 10 object shapes (key at every position, extra members of every kind, a removed member before/after the key, a member reset to undefined, the other member removed, key only). GroupBy and <loop group=> are compared with a reference partition (first-appearance order, members in input order minus the key); the source array must be unchanged and a dirty destination replaced.',
         'design_ref': 'DESIGN.md §5 C18',
